@@ -195,7 +195,11 @@ done:
 	}
 	if overflow {
 		var z big.Int
-		bi, _ := z.SetString(string(ra[p0:pos+1]), int(radix))
+		// White space after the digits has been scanned as well.
+		bi, ok := z.SetString(strings.TrimSpace(string(ra[p0:pos+1])), int(radix))
+		if !ok {
+			slip.ErrorPanic(s, depth, "junk in string %q", string(ra))
+		}
 		return slip.Values{(*slip.Bignum)(bi), slip.Fixnum(start + pos + 1)}
 	}
 	if neg {
